@@ -163,6 +163,12 @@ def concretise(cm, spec):
                  "day_of_month": 28 + spec["x"] % 4}
         elif what == "o":
             p = {"year": y, "day_of_year": 359 + spec["x"] % 8}
+        elif what == "m":
+            # year-less day of the month / day of the year: the limits are
+            # the mode's longest month and longest year
+            p = [{"truncated": True, "day_of_month": 28 + spec["x"] % 5},
+                 {"truncated": True, "day_of_year": 359 + spec["x"] % 9}][
+                     spec["x"] % 2]
         elif what == "t":
             # year-less (truncated) week date: week 53 exists in no year of
             # the 360-day calendar
@@ -325,6 +331,21 @@ def do_compute(state, spec, workers):
                         "days / %r s, the mode's year has %d days" % (
                             cm, op["a"]["years"], got[4], got[5],
                             R.ylen(cm, 2001)))
+    if op["op"] == "valid" and op["p"].get("truncated") and (
+            "day_of_month" in op["p"] or "day_of_year" in op["p"]):
+        # year-less day of month / year: real iff some month / year of the
+        # mode is that long
+        if "day_of_month" in op["p"]:
+            real = 1 <= op["p"]["day_of_month"] <= max(R.mlens(cm, 2000))
+        else:
+            real = 1 <= op["p"]["day_of_year"] <= R.ylen(cm, 2000)
+        accepted = isinstance(got, str)
+        if accepted != real:
+            return op, ("definition: mode %s year-less %s was %s, the mode's "
+                        "longest month / year makes it %s" % (
+                            cm, json.dumps(op["p"]),
+                            "accepted" if accepted else "refused (%r)" % (got,),
+                            "a real day" if real else "impossible"))
     if op["op"] == "add_trunc" and isinstance(got, str):
         # the next day with that day-of-month, by the mode's month lengths
         base = dict(op["p"], hour_of_day=0, minute_of_hour=0, second_of_minute=0,
@@ -540,7 +561,7 @@ def make_machine(ctx, workers, seen):
         def parse_raw(self, x):
             self._compute({"k": "parse_raw", "x": x})
 
-        @rule(y=Y, f=Fr, what=st.sampled_from("cowt"), x=st.integers(0, 7))
+        @rule(y=Y, f=Fr, what=st.sampled_from("cowtm"), x=st.integers(0, 17))
         def valid(self, y, f, what, x):
             self._compute({"k": "valid", "y": y, "f": f, "what": what, "x": x})
 
